@@ -84,6 +84,20 @@ CHECKS = {
         note="SHA-1 values come from hashlib (environment fact); the tag-value and expression readers are written for this "
              "check; header fields are only required to be present.",
         ref="5/C18"),
+    "C14": dict(
+        technique="TLA+ model of the lint pipeline as a concurrent system (LintPool.tla: walk order, chunking, worker "
+                  "interleavings; ScheduleFree, EachFileOnce, termination) model-checked by TLC; TLC -simulate schedules "
+                  "replayed into the real code by a replay pool in forked workers; recorded executions of the real "
+                  "multiprocessing pool validated against LintPool by TLC; equality of normalised outputs over hidden "
+                  "parameters",
+        text="TLC explores every walk order, chunking and worker interleaving of the model; the same behaviours drive the "
+             "real code (spec -> code), and real pool runs with 1..16 workers are recorded in the workers and checked to "
+             "be LintPool behaviours (code -> spec).  For every tree all runs - serial, scheduled, real pool, permuted "
+             "directory listings, five root/cwd spellings, project location, PYTHONHASHSEED values - must give the same "
+             "normalised lint and SPDX output and exit status.",
+        note="Hash seeds and listing orders are sampled (seeded); pool.map semantics (fresh callable per chunk, results in "
+             "input order) are transcribed in harness/schedshim.py; equality with R itself is C01's subject.",
+        ref="5/C14"),
     "C03": dict(
         technique="TLA+ requirement CoverReq (three-valued: must / must not / unpinned) vs walk-with-pruning mechanism "
                   "model-checked by TLC; TLC-enumerated directory-context x name-class x type x VCS-wish nodes built as "
